@@ -409,6 +409,13 @@ def c02_r5(ctx: Ctx, rule):
                         res.fail(rule.id, "xml-scope::bundle-binding-skipped", ctx.loc(q2, t),
                                  "a bundle's binding is dropped when the document already declares the same prefix (`%s`)" % norm(t.test),
                                  "document ex->A, bundle ex->B: every ex: name in the bundle is written under A and reloads with another URI")
+            # the same thing said with dict.setdefault: the first binding (the document's) wins
+            for c in ast.walk(n):
+                if isinstance(c, ast.Call) and call_name(c) == "setdefault" and c.args and norm(c.args[0]) == "%s.prefix" % v:
+                    res.ob("bundle namespaces loop: `%s` keeps the document's binding of an already declared prefix" % norm(c)[:60])
+                    res.fail(rule.id, "xml-scope::bundle-binding-skipped", ctx.loc(q2, c),
+                             "a bundle's binding is dropped when the document already declares the same prefix (`%s`)" % norm(c)[:60],
+                             "document ex->A, bundle ex->B: every ex: name in the bundle is written under A and reloads with another URI")
     return res
 
 
@@ -833,6 +840,25 @@ def xml_micro(ctx: Ctx, rule):
                 if not okv:
                     res.fail(rule.id, "absent-text-not-a-string", ctx.loc(q, n), "%s replaces an absent element text by %s, not by a string" % (short(q), norm(n.orelse)),
                              "an attribute whose value is the empty string reloads as the string 'None' (or is dropped)")
+    # (c) the text of a value element is the value: it is not stripped, split or otherwise rewritten on the way (white space is
+    # significant in xsd:string; the writer emits xsi:type="xsd:string" for plain strings in prov:type / value / location)
+    for q in ctx.helper_closure(rq):
+        if not q.startswith(XM + "."):
+            continue
+        f = ctx.fn(q)
+        text_names = set()
+        for a in walk_function(f.node):
+            if isinstance(a, ast.Assign) and len(a.targets) == 1 and isinstance(a.targets[0], ast.Name) and any(isinstance(x, ast.Attribute) and x.attr == "text" for x in ast.walk(a.value)):
+                text_names.add(a.targets[0].id)
+        for c in calls_in(f.node):
+            if isinstance(c.func, ast.Attribute) and c.func.attr in ("strip", "lstrip", "rstrip", "split", "splitlines", "replace", "lower", "upper", "casefold", "expandtabs", "translate"):
+                recv = c.func.value
+                is_text = (isinstance(recv, ast.Name) and recv.id in text_names) or (isinstance(recv, ast.Attribute) and recv.attr == "text")
+                if is_text:
+                    res.ob("%s: the element text is rewritten: %s" % (short(q), norm(c)[:40]))
+                    res.fail(rule.id, "element-text-rewritten::%s" % norm(c)[:30], ctx.loc(q, c),
+                             "%s applies %s to the text of a value element: for a string value this changes the value" % (short(q), norm(c)[:40]),
+                             "prov:value = ' padded value ' is written with xsi:type=xsd:string and reloads as 'padded value'")
     return res
 
 
